@@ -45,7 +45,9 @@ def api_case(seed, profile=None, options=None, sm=None):
     if rng.random() < pf["markdown"]:
         opts["format"] = "markdown"
     if rng.random() < pf["p_embedded_map"]:
-        emb = safe_style_map(rng, pools_of(g), hostile=0.1, allow_sep=pf["separators"], junk=0.1)
+        ekw = dict(hostile=0.1, allow_sep=pf["separators"], junk=0.1)
+        ekw.update({k: v for k, v in (sm or {}).items() if k in ("hid", "hostile")})
+        emb = safe_style_map(rng, pools_of(g), **ekw)
         parts.append({"name": "mammoth/style-map", "hex": emb.encode("utf-8").hex()})
     opts.update(options or {})
     return g, parts, opts
